@@ -36,6 +36,8 @@ pub struct RunOut {
     pub hits_after_write: u64,
     pub searches: u64,
     pub ref_mismatch: u64,
+    pub cold_losses: u64,
+    pub repairs: u64,
 }
 
 fn meta(tag: &str) -> HashMap<String, String> {
@@ -64,7 +66,7 @@ pub fn run(h: &Hist) -> RunOut {
     .expect("engine");
     let mut live: BTreeMap<u64, Vec<f32>> = BTreeMap::new();
     let mut lost: BTreeMap<u64, Vec<f32>> = BTreeMap::new();
-    let mut out = RunOut { trace: vec![], failure: None, hits: 0, hits_after_write: 0, searches: 0, ref_mismatch: 0 };
+    let mut out = RunOut { trace: vec![], failure: None, hits: 0, hits_after_write: 0, searches: 0, ref_mismatch: 0, cold_losses: 0, repairs: 0 };
     let mut writes = 0u64;
     let mut last_search: HashMap<(u64, Vec<u32>), u64> = HashMap::new();
     for (i, op) in h.ops.iter().enumerate() {
@@ -119,6 +121,7 @@ pub fn run(h: &Hist) -> RunOut {
                 }
                 if !repaired.is_empty() {
                     writes += 1;
+                    out.repairs += repaired.len() as u64;
                 }
                 out.trace.push(json!({"flush": r.ok(), "repaired_from_mirror": repaired}));
             }
@@ -128,6 +131,7 @@ pub fn run(h: &Hist) -> RunOut {
                     if let Some(v) = live.remove(id) {
                         lost.insert(*id, v);
                     }
+                    out.cold_losses += 1;
                     writes += 1;
                 }
                 out.trace.push(json!({"cold_loss": id, "res": r.ok()}));
@@ -303,6 +307,7 @@ fn shrink(h: &Hist) -> Hist {
 pub fn run_stream(n: usize, rng: &mut Rng) -> Value {
     let mut fails = vec![];
     let (mut hits, mut haw, mut searches, mut mism, mut nontrivial) = (0u64, 0u64, 0u64, 0u64, 0u64);
+    let (mut losses, mut repairs) = (0u64, 0u64);
     let mut sample = Value::Null;
     for k in 0..n {
         let mut r = rng.fork(k as u64);
@@ -312,6 +317,8 @@ pub fn run_stream(n: usize, rng: &mut Rng) -> Value {
         haw += o.hits_after_write;
         searches += o.searches;
         mism += o.ref_mismatch;
+        losses += o.cold_losses;
+        repairs += o.repairs;
         if o.hits_after_write > 0 {
             nontrivial += 1;
         }
@@ -328,6 +335,7 @@ pub fn run_stream(n: usize, rng: &mut Rng) -> Value {
     }
     json!({"histories": n, "searches": searches, "cache_hits": hits, "cache_hits_after_intervening_write": haw,
            "histories_with_hit_after_write": nontrivial, "reference_live_set_mismatch": mism,
+           "injected_cold_record_losses": losses, "drift_repairs_from_mirror": repairs,
            "oracle_failures": fails, "sample": sample})
 }
 
